@@ -242,7 +242,68 @@ func (a *acc) flush(test string) {
 		if strings.HasPrefix(c, "trivial:") {
 			nt = 0
 		}
-		rep.Count(test, a.h.name+"/"+a.flav+"/"+c, n, nt, a.sample[c])
+		name := a.h.name + "/" + a.flav + "/" + c
+		if strings.HasPrefix(c, "observe_mid:") || strings.HasPrefix(c, "input:") {
+			name = c // cross-cutting classes that conf/c16.py declares mandatory
+		}
+		rep.Count(test, name, n, nt, a.sample[c])
+	}
+}
+
+// ---- slices with dirty spare capacity ----------------------------------------------------------
+
+const dirtyByte = 0xEE
+
+// window returns b as a window buf[3:3+len(b)] of a larger caller buffer whose other bytes (in front, and
+// behind in the spare capacity of the window) are non-zero, plus a function that reports whether the call
+// under test left every byte of the buffer as it was.
+func window(b []byte) (w []byte, intact func() bool) {
+	const lo, extra = 3, 37
+	buf := make([]byte, lo+len(b)+extra)
+	for i := range buf {
+		buf[i] = dirtyByte
+	}
+	copy(buf[lo:], b)
+	snapshot := append([]byte{}, buf...)
+	return buf[lo : lo+len(b)], func() bool { return bytes.Equal(buf, snapshot) }
+}
+
+// dirtyProofSet copies ps into an outer slice with spare capacity that holds further, well-formed but
+// foreign elements (a verifier that looks beyond len would consume them); inner: every element is a
+// window of a dirty buffer as well.
+func dirtyProofSet(ps [][]byte, inner bool) (q [][]byte, intact func() bool) {
+	if ps == nil {
+		return nil, func() bool { return true }
+	}
+	const spare = 3
+	q = make([][]byte, len(ps), len(ps)+spare)
+	var checks []func() bool
+	for j := range ps {
+		q[j] = ps[j]
+		if inner {
+			var ok func() bool
+			q[j], ok = window(ps[j])
+			checks = append(checks, ok)
+		}
+	}
+	full := q[:cap(q)]
+	foreign := make([]byte, 32)
+	foreign[31] = 0x2a // a canonical block for MiMC, an ordinary string for SHA-256
+	for j := len(ps); j < len(full); j++ {
+		full[j] = foreign
+	}
+	return q, func() bool {
+		for _, c := range checks {
+			if !c() {
+				return false
+			}
+		}
+		for j := len(ps); j < len(full); j++ {
+			if len(full[j]) != 32 || &full[j][0] != &foreign[0] || foreign[31] != 0x2a {
+				return false
+			}
+		}
+		return true
 	}
 }
 
@@ -252,7 +313,25 @@ func (a *acc) verify(root []byte, ps [][]byte, i, n uint64) (ok bool) {
 			a.t.Fatalf("%s/%s: VerifyProof panicked on index=%d numLeaves=%d len(proofSet)=%d: %v", a.h.name, a.flav, i, n, len(ps), r)
 		}
 	}()
-	return merkletree.VerifyProof(a.vh, root, ps, i, n)
+	// every proof set is handed over with dirty spare capacity in the outer slice
+	q, intact := dirtyProofSet(ps, false)
+	ok = merkletree.VerifyProof(a.vh, root, q, i, n)
+	if !intact() {
+		a.t.Fatalf("%s/%s: VerifyProof wrote into the spare capacity of the proof set (index=%d numLeaves=%d)", a.h.name, a.flav, i, n)
+	}
+	return ok
+}
+
+// verifyDirty: root and every proof element are windows of larger dirty buffers, too.
+func (a *acc) verifyDirty(root []byte, ps [][]byte, i, n uint64) bool {
+	q, intact := dirtyProofSet(ps, true)
+	r, rintact := window(root)
+	ok := merkletree.VerifyProof(a.vh, r, q, i, n)
+	if !intact() || !rintact() {
+		a.t.Fatalf("%s/%s: VerifyProof modified its inputs or their spare capacity (index=%d numLeaves=%d)", a.h.name, a.flav, i, n)
+	}
+	a.count("input:slice_with_dirty_spare_capacity", fmt.Sprintf("VerifyProof n=%d i=%d", n, i))
+	return ok
 }
 
 func hexs(ps [][]byte) string {
@@ -299,7 +378,7 @@ func (a *acc) honest(path string, R *ref.MerkleRef, n, i int, root []byte, ps []
 			a.t.Fatalf("%s/%s %s %s: proof element %d differs\n got %s\nwant %s", a.h.name, a.flav, path, what, j, hexs(ps), hexs(want))
 		}
 	}
-	if !a.verify(root, ps, idx, nl) {
+	if !a.verify(root, ps, idx, nl) || !a.verifyDirty(root, ps, idx, nl) {
 		a.t.Fatalf("%s/%s %s %s: honest proof does not verify\nroot=%x proofSet=%s", a.h.name, a.flav, path, what, root, hexs(ps))
 	}
 	if !ref.MerkleVerify(a.h.model, root, ps, idx, nl) {
